@@ -1207,8 +1207,8 @@ def c17(ctx):
                             ea, eb = eb, ea
                             op = 'Gt' if op == 'Lt' else 'Ge'
                         a, b = render(ea), render(eb)
-                        exact_len = ea[0] == 'call' and ea[1].endswith('Vec::len') and 'threads' in a
-                        exact_max = eb[0] != 'binop' and 'max_threads' in b and 'len(' not in b
+                        exact_len = ea[0] == 'call' and ea[1].endswith('Vec::len') and 'threads' in a and not _has_arith(ea)
+                        exact_max = eb[0] != 'binop' and 'max_threads' in b and 'len(' not in b and not _has_arith(eb)
                         if exact_len and exact_max and op == 'Gt':
                             fe = [tb for v, tb in tt['targets'] if v == '0']
                             if fe:
